@@ -50,7 +50,156 @@ fn arith_pos(out: &mut Out, p: u64) {
 	}
 }
 
+
+/// would `family_branch(pos0, size)` return?  The loop re-implemented with explicit wrapping
+/// arithmetic and a bound: once `peak <<= 1` has shifted the bit out the body changes nothing any
+/// more and the real loop (release build) pushes pairs for ever
+fn branch_terminates(pos0: u64, size: u64) -> bool {
+	let (peak_map, height) = pmmr::peak_map_height(pos0);
+	let mut peak: u64 = 1u64 << height;
+	let mut current = pos0;
+	for _ in 0..200 {
+		if !(current.wrapping_add(1) < size) {
+			return true;
+		}
+		if (peak_map & peak) != 0 {
+			current = current.wrapping_add(1);
+		} else {
+			current = current.wrapping_add(peak.wrapping_mul(2));
+		}
+		if current >= size {
+			return true;
+		}
+		peak = peak.wrapping_shl(1);
+	}
+	false
+}
+
+/// every pure position function on one position near the u64 limit (release arithmetic: the harness
+/// is built without overflow checks, as the node is)
+fn arith_limit_pos(out: &mut Out, p: u64) {
+	macro_rules! op {
+		($name:expr, $f:expr) => {
+			match catch(|| $f) {
+				Ok(s) => out.line(&format!("pmmr {} {}", $name, p), &s),
+				Err(_) => out.line(&format!("pmmr {} {}", $name, p), "panic"),
+			}
+		};
+	}
+	op!("pmh", {
+		let r = pmmr::peak_map_height(p);
+		format!("{} {}", r.0, r.1)
+	});
+	op!("psh", {
+		let r = pmmr::peak_sizes_height(p);
+		format!("{} {}", nat_list(&r.0), r.1)
+	});
+	op!("height", pmmr::bintree_postorder_height(p).to_string());
+	op!("isleaf", pmmr::is_leaf(p).to_string());
+	op!("pos2ins", match pmmr::pmmr_leaf_to_insertion_index(p) {
+		Some(n) => n.to_string(),
+		None => "none".to_string(),
+	});
+	op!("nleaves", pmmr::n_leaves(p).to_string());
+	op!("peaks", nat_list(&pmmr::peaks(p)));
+	op!("isleft", pmmr::is_left_sibling(p).to_string());
+	op!("rightmost", pmmr::bintree_rightmost(p).to_string());
+	op!("roundupw", pmmr::round_up_to_leaf_pos(p).to_string());
+	op!("ins2posw", pmmr::insertion_to_pmmr_index(p).to_string());
+	op!("familyw", {
+		let r = pmmr::family(p);
+		format!("{} {}", r.0, r.1)
+	});
+	op!("leftmostw", pmmr::bintree_leftmost(p).to_string());
+	op!("rangew", {
+		let r = pmmr::bintree_range(p);
+		format!("{} {}", r.start, r.end)
+	});
+	if pmmr::bintree_postorder_height(p) <= 10 {
+		op!("leafiterw", nat_list(&pmmr::bintree_leaf_pos_iter(p).collect::<Vec<_>>()));
+		op!("positerw", {
+			let mut it = pmmr::bintree_pos_iter(p);
+			let first = it.next();
+			let n = it.count() as u64 + first.is_some() as u64;
+			format!("{} {}", first.unwrap_or(pmmr::bintree_leftmost(p)), n)
+		});
+	}
+}
+
+fn arith_limit(out: &mut Out, rng: &mut Rng, thorough: bool) {
+	let mut ps: Vec<u64> = vec![];
+	for k in 0..=64u64 {
+		ps.push(u64::MAX - k);
+		ps.push((1u64 << 63) + k);
+		ps.push((1u64 << 63) - k);
+		ps.push((1u64 << 62) + k);
+		ps.push((1u64 << 62) - k);
+	}
+	for j in 1..=64u32 {
+		let pw = if j == 64 { 0u64 } else { 1u64 << j };
+		ps.push(pw.wrapping_sub(2));
+		ps.push(pw.wrapping_sub(1));
+		if j < 64 {
+			ps.push(pw);
+		}
+	}
+	// the roots of the perfect trees of 2^j - 1 nodes and their children; for j = 64 the parent of the
+	// root (and of u64::MAX, the first leaf of the tree after it) lies beyond u64::MAX
+	for j in 58..=64u32 {
+		let root = (if j == 64 { 0u64 } else { 1u64 << j }).wrapping_sub(2);
+		ps.push(root);
+		ps.push(root - 1); // right child
+		ps.push((1u64 << (j - 1)) - 2); // left child
+		ps.push(root.wrapping_add(1));
+		ps.push(root.wrapping_add(2));
+	}
+	let nrand = if thorough { 20000 } else { 2000 };
+	for _ in 0..nrand {
+		let p = (rng.next() | (1u64 << 62)) >> rng.below(2);
+		ps.push(p);
+	}
+	ps.sort();
+	ps.dedup();
+	let mut stats = (0u64, 0u64, 0u64);
+	for p in &ps {
+		arith_limit_pos(out, *p);
+		stats.0 += 1;
+	}
+	// family_branch(pos0, size): sizes at the limit, just above the position, and random ones
+	let mut pairs_: Vec<(u64, u64)> = vec![];
+	for (i, p) in ps.iter().enumerate() {
+		if i % 7 != 0 && *p < u64::MAX - 70 && (*p & (*p + 2)) != 0 && ps.len() > 600 && i > 500 {
+			continue;
+		}
+		for s in [u64::MAX, u64::MAX - 1, p.wrapping_add(1), p.wrapping_add(2), p.wrapping_add(3), (1u64 << 63), (1u64 << 63) + 1, *p, p / 2] {
+			pairs_.push((*p, s));
+		}
+		pairs_.push((*p, p.wrapping_add(rng.next() >> rng.range(1, 63))));
+	}
+	for (p, s) in pairs_ {
+		if !branch_terminates(p, s) {
+			// not called: the real loop would push pairs until memory runs out (pos0 >= size here, outside
+			// the domain of the function: no caller passes a position beyond the size)
+			stats.2 += 1;
+			if stats.2 <= 3 {
+				out.raw(&format!("#STAT arith-limit: family_branch({}, {}) does not return in a release build (peak shifted out, loop body idle); not called", p, s));
+			}
+			continue;
+		}
+		stats.1 += 1;
+		match catch(|| pairs(&pmmr::family_branch(p, s))) {
+			Ok(v) => out.line(&format!("pmmr branchw {} {}", p, s), &v),
+			Err(_) => out.line(&format!("pmmr branchw {} {}", p, s), "panic"),
+		}
+	}
+	out.raw(&format!(
+		"#STAT arith-limit: positions in [2^62, u64::MAX] and at 2^j-2, 2^j-1, 2^j: {}, family_branch pairs evaluated: {}, pairs on which family_branch would not return (not called): {}",
+		stats.0, stats.1, stats.2
+	));
+}
+
 fn arith(out: &mut Out, rng: &mut Rng, thorough: bool) {
+	arith_limit(out, rng, thorough);
 	let lim: u64 = if thorough { 1 << 17 } else { 1 << 13 };
 	for p in 0..lim {
 		arith_pos(out, p);
